@@ -1,4 +1,4 @@
-use quote::{format_ident, quote, ToTokens};
+use quote::ToTokens;
 use syn::{Data, DeriveInput, Fields, Meta, Type};
 
 use super::models::{FieldAttributeBuilder, FieldName, TypeAttributeBuilder, TypeName};
